@@ -44,6 +44,7 @@ impl World for TemplateWorld {
         let mut case = gen_case(&mut g, kind, &opts);
         let mut fg = rng::stream(run_seed, "faults");
         case.clone_config = fg.chance(0.1);
+        case.stale_state = fg.chance(0.15);
         match self.faults {
             FaultMix::None => {}
             FaultMix::Evaluator => {
@@ -216,6 +217,7 @@ impl World for EvalIds {
             fault: TFault::None,
             log: false,
             clone_config: false,
+            stale_state: false,
         });
         let data = Arc::new(std::sync::Mutex::new(crate::tw::observer::ObsData::default()));
         let mut state: mahf::State<RealP> = mahf::State::new();
